@@ -390,6 +390,14 @@ func RunProperty[C any](t *testing.T, p Property[C]) {
 	}()
 
 	report := func(c C, fs []Finding, path string) {
+		for _, f := range fs {
+			if f.Key == "harness-panic" {
+				// a panic in the harness itself is a broken check, never evidence against the code under test
+				status = "error"
+				fmt.Printf("HARNESS-ERROR property=%s %s\n", p.ID, f.Detail)
+				return
+			}
+		}
 		if path == "" {
 			if p.Trim != nil {
 				tc := p.Trim(c)
